@@ -91,9 +91,11 @@ def finish(rep, tier, t0, seed=0, extra_cov=None, level="other", pdb_info=None, 
     known, _fixed = load_known()
     viol = rep.violations()
     unlisted = []
+    listed = []
     for r in viol:
         if r.key in known and known[r.key][0] == prop:
             print("KNOWN-FINDING: property=%s %s [%s at %s]" % (prop, known[r.key][1], r.key, r.where))
+            listed.append({"key": r.key, "where": r.where, "what": known[r.key][1]})
         else:
             unlisted.append(r)
     evaluated = [r for r in rep.results if r.status in ("ok", "violation")]
@@ -130,6 +132,8 @@ def finish(rep, tier, t0, seed=0, extra_cov=None, level="other", pdb_info=None, 
         "notes": rep.notes,
         "exhaustive": True,
     }
+    if listed:
+        cov["known_findings_reported"] = listed      # genuine defects recorded in known_findings.txt (exact-key match), still present
     if pdb_info:
         cov["analysed"] = pdb_info
     if extra_cov:
